@@ -68,6 +68,53 @@ static PDU* construct(int dlt, const Bytes& f) {
         case gen::DLT_IEEE802_11_RADIO_: return new RadioTap(p, n); case gen::DLT_IEEE802_11_: return Dot11::from_bytes(p, n); default: return 0; }
 }
 
+// ---- stateful holders of layers named by the property's anchors: legacy TCPStream (held out-of-order segments are RawPDU layers it
+// owns), PDUCacher (owns a deep copy of a tree), IPv4Reassembler (owns the fragments' payload layers). Each op builds its objects,
+// copies / assigns / destroys them and returns an error text; everything it allocated must be gone when it returns (ledger).
+static std::string legacy_stream_op(int kind, uint32_t cisn, uint32_t sisn, uint64_t x) {
+    const IPv4Address ca("10.0.0.1"), sa("10.0.0.2"); Bytes C(40), S(40); for (size_t i = 0; i < 40; ++i) { C[i] = (uint8_t)('a' + (i + x) % 26); S[i] = (uint8_t)('A' + (i * 3 + x) % 26); }
+    auto feed = [&](TCPStream& st, bool from_client, size_t lo, size_t hi) { IP ip = from_client ? IP(sa, ca) : IP(ca, sa); TCP tcp(from_client ? 80 : 1234, from_client ? 1234 : 80); tcp.flags(TCP::ACK | TCP::PSH);
+        tcp.seq((from_client ? cisn : sisn) + 1 + (uint32_t)lo); const Bytes& src = from_client ? C : S; tcp.inner_pdu(RawPDU(src.data() + lo, (uint32_t)(hi - lo))); ip.inner_pdu(tcp); st.update(&ip, ip.find_pdu<TCP>()); };
+    auto open = [&](uint16_t cport) { IP syn = IP(sa, ca); TCP t(80, cport); t.flags(TCP::SYN); t.seq(cisn); syn.inner_pdu(t); TCPStream* st = new TCPStream(&syn, syn.find_pdu<TCP>(), cport);
+        IP sy = IP(ca, sa); TCP t2(cport, 80); t2.flags(TCP::SYN | TCP::ACK); t2.seq(sisn); t2.ack_seq(cisn + 1); sy.inner_pdu(t2); st->update(&sy, sy.find_pdu<TCP>()); return st; };
+    std::unique_ptr<TCPStream> st(open(1234)), c;
+    feed(*st, true, 10, 20); feed(*st, true, 25, 30); feed(*st, false, 5, 15); feed(*st, false, 20, 40);      // all held: the first bytes are missing in both directions
+    if (!st->client_payload().empty() || !st->server_payload().empty()) return "data delivered although the first bytes of the stream never arrived";
+    if (kind == 0) c.reset(new TCPStream(*st));
+    else if (kind == 1) { c.reset(open(1234)); *c = *st; }
+    else if (kind == 2) { c.reset(open(1234)); feed(*c, true, 30, 40); feed(*c, false, 30, 35); feed(*c, false, 16, 18); *c = *st; }      // the target holds segments of its own
+    else { TCPStream& self = *st; *st = self; c.reset(new TCPStream(*st)); }
+    TCPStream* both[2] = { st.get(), c.get() };
+    for (int i = 0; i < 2; ++i) { TCPStream& t = *both[(i + x) % 2]; feed(t, true, 20, 25); feed(t, true, 0, 10); feed(t, false, 15, 20); feed(t, true, 30, 40); feed(t, false, 0, 5); }
+    for (int i = 0; i < 2; ++i) { const char* who = i ? "copy" : "original";
+        if (both[i]->client_payload() != C) return std::string("client payload of the ") + who + fmt(" holds %zu bytes / differs from the 40 sent", both[i]->client_payload().size());
+        if (both[i]->server_payload() != S) return std::string("server payload of the ") + who + fmt(" holds %zu bytes / differs from the 40 sent", both[i]->server_payload().size()); }
+    return "";
+}
+static std::string cacher_op(const PDU* root, const Bytes& want, int variant) {
+    if (root->pdu_type() != PDU::ETHERNET_II && root->pdu_type() != PDU::IP) return "skip";
+    std::unique_ptr<PDU> c1, c2; if (root->pdu_type() == PDU::IP) c1.reset(new PDUCacher<IP>(*static_cast<const IP*>(root))); else c1.reset(new PDUCacher<EthernetII>(*static_cast<const EthernetII*>(root)));
+    if (variant & 1) { PDU::serialization_type s = c1->serialize(); if (Bytes(s.begin(), s.end()) != want) return "cacher serialization differs from the tree it was built from"; }
+    c2.reset(c1->clone()); if (variant & 2) c1.reset();
+    PDU::serialization_type s2 = c2->serialize(); if (Bytes(s2.begin(), s2.end()) != want) return "clone of the cacher serializes differently from the tree";
+    if (c2->inner_pdu() || c2->parent_pdu()) return "cacher clone is linked to another layer";
+    if (variant & 4) { EthernetII e; e.inner_pdu(c2.release()); if (e.inner_pdu()->parent_pdu() != &e) return "cacher stacked under a layer has a wrong parent link"; std::unique_ptr<PDU> e2(e.clone()); if (e2->inner_pdu()->parent_pdu() != e2.get()) return "clone of a tree holding a cacher has a wrong parent link"; }
+    return "";
+}
+static std::string reasm_op(uint64_t x) {
+    // fragments are handed over, the reassembler keeps clones of their payload layers: complete one datagram, leave another incomplete, copy
+    // the reassembler state away by destroying it with streams pending / after clear_streams / after remove_stream
+    Bytes pay(48); for (size_t i = 0; i < 48; ++i) pay[i] = (uint8_t)(i + x);
+    std::unique_ptr<IPv4Reassembler> r(new IPv4Reassembler()); int done = 0;
+    for (int dg = 0; dg < 2; ++dg) for (int k = 0; k < 3; ++k) { int f = (int)((k + x) % 3); if (dg == 1 && f == 1) continue;      // datagram 1 never gets its middle fragment
+        IP ip("10.0.0.2", "10.0.0.1"); ip.id((uint16_t)(7 + dg)); ip.protocol(253); ip.fragment_offset((uint16_t)(f * 2)); ip.flags(f == 2 ? (IP::Flags)0 : IP::MORE_FRAGMENTS); ip.inner_pdu(RawPDU(pay.data() + f * 16, 16));
+        EthernetII e; e.inner_pdu(ip); IPv4Reassembler::PacketStatus stt = r->process(e);
+        if (stt == IPv4Reassembler::REASSEMBLED) { ++done; const RawPDU* raw = e.find_pdu<RawPDU>(); if (!raw || Bytes(raw->payload().begin(), raw->payload().end()) != pay) return "reassembled payload differs"; const IP* rip = e.find_pdu<IP>(); if (!rip->inner_pdu() || rip->inner_pdu()->parent_pdu() != rip) return "reassembled payload layer has a wrong parent link"; } }
+    if (done != 1) return fmt("%d datagrams reassembled, expected 1", done);
+    switch (x % 3) { case 0: r->clear_streams(); break; case 1: r->remove_stream(8, IPv4Address("10.0.0.1"), IPv4Address("10.0.0.2")); break; default: break; }
+    r.reset(); return "";
+}
+
 struct Root { PDU* p; bool known, bytes_known, moved_from; std::vector<int> types; Bytes bytes; Root() : p(0), known(false), bytes_known(false), moved_from(false) {} };
 struct PkSlot { Packet* pk; bool known, bytes_known; std::vector<int> types; Bytes bytes; PkSlot() : pk(0), known(false), bytes_known(false) {} };
 
@@ -93,11 +140,13 @@ struct OwnEngine : Engine {
         auto add_new = [&]() { if (cfg.chance(0.75)) { int dlt = dlts[cfg.below(7)]; gen::Frame f = gen::frame_for(wl, dlt); KV k; k.set("op", "new").set("dlt", dlt).set("f", f.bytes); p.steps.push_back(k.line()); } else { KV k; k.set("op", "newdef").set("cls", (int64_t)cfg.below(12)); p.steps.push_back(k.line()); } };
         add_new(); add_new();
         static const char* ops[] = { "new", "clone", "copyctor", "clone_inner", "copy_inner", "copyassign", "copyassign", "movector", "moveassign", "div", "diveq", "inner_ptr", "inner_ref", "release", "reattach", "delete", "mutate", "mutate",
-                                     "pk_wrap", "pk_clonewrap", "pk_copy", "pk_assign", "pk_assign", "pk_move", "pk_moveassign", "pk_release", "pk_diveq", "optassign", "selfassign", "stack" };
+                                     "pk_wrap", "pk_clonewrap", "pk_copy", "pk_assign", "pk_assign", "pk_move", "pk_moveassign", "pk_release", "pk_diveq", "optassign", "selfassign", "stack", "tcpstream", "cacher", "reasm" };
         for (int i = 0; i < nops; ++i) {
             std::string o = ops[cfg.below(sizeof(ops) / sizeof(ops[0]))];
             if (o == "new") { add_new(); continue; }
             KV k; k.set("op", o).set("a", (int64_t)cfg.below(64)).set("b", (int64_t)cfg.below(64)).set("x", (int64_t)cfg.below(1000));
+            if (o == "tcpstream") { static const uint32_t isns[5] = { 1000, 0xffffffe0u, 0xfffffff5u, 0x7ffffff0u, 0 }; k.set("kind", (int64_t)cfg.below(4)).setu("cisn", isns[cfg.below(5)]).setu("sisn", isns[cfg.below(5)]); }
+            if (o == "cacher") k.set("kind", (int64_t)cfg.below(8));
             if (o == "optassign") k.set("s1", (int64_t)cfg.pick(std::vector<int>{0, 1, 7, 8, 9, 16, 40, 200})).set("s2", (int64_t)cfg.pick(std::vector<int>{0, 1, 7, 8, 9, 16, 40, 200})).set("self", cfg.chance(0.2) ? 1 : 0).set("move", cfg.chance(0.4) ? 1 : 0);
             if (faults && cfg.chance(0.5)) k.set("fail", (int64_t)cfg.small(1, 12));
             p.steps.push_back(k.line());
@@ -148,7 +197,7 @@ struct OwnEngine : Engine {
                 ledger::allocs_in_op = 0; ledger::fail_countdown = fail;
                 if (op == "new") { PDU* q = 0; Bytes fb = k.bytes("f"); int dl = (int)k.num("dlt"); try { SUT(q = construct(dl, fb)); } catch (malformed_packet&) {} ledger::fail_countdown = 0; if (q) { add_root(q); } else skipped = true; }
                 else if (op == "newdef") { PDU* q = 0; SUT(q = default_of((int)k.num("cls"))); ledger::fail_countdown = 0; add_root(q); }
-                else if (!nr && op.compare(0, 3, "pk_") != 0 && op != "optassign") skipped = true;
+                else if (!nr && op.compare(0, 3, "pk_") != 0 && op != "optassign" && op != "tcpstream" && op != "reasm") skipped = true;
                 else if (op == "clone") { PDU* q = 0; SUT(q = roots[a].p->clone()); ledger::fail_countdown = 0; Root& r = add_root(q); if (roots[a].known && (r.types != roots[a].types || (roots[a].bytes_known && r.bytes_known && r.bytes != roots[a].bytes))) result = Verdict::bad("own:clone-not-equal", "clone differs from its source", idx); if (roots[a].types.size() > 1) nontrivial = true; }
                 else if (op == "clone_inner" || op == "copy_inner") {
                     // a copy of a NON-ROOT layer kept as a user-owned root: it must be a root of its own (no parent link into the source tree) and equal to that sub-chain
@@ -208,6 +257,18 @@ struct OwnEngine : Engine {
                     TCP::option& r = self ? *o2 : *o1;
                     if (r.data_size() != s2 || (s2 && memcmp(r.data_ptr(), d2.data(), s2) != 0) || r.option() != TCP::MSS) result = Verdict::bad("own:option-assign-not-equal", fmt("option assignment (%zu <- %zu bytes%s) did not produce an equal option", s1, s2, self ? ", self" : ""), idx);
                     if ((s1 > 8) != (s2 > 8)) st.inc("probe.option_assign_across_small_buffer_threshold"); }
+                else if (op == "tcpstream" || op == "cacher" || op == "reasm") {
+                    // self-contained: no allocation fault is armed (the op's own scaffolding would not survive it), every object is gone at the end
+                    ledger::fail_countdown = 0; int64_t before = ledger::live; std::string err;
+                    if (op == "cacher" && (!nr || !roots[a].bytes_known || roots[a].moved_from)) skipped = true;
+                    else {
+                        { ledger::Scope sc; if (op == "tcpstream") err = legacy_stream_op((int)k.num("kind"), (uint32_t)k.u64("cisn", 1), (uint32_t)k.u64("sisn", 2), (uint64_t)x); else if (op == "cacher") err = cacher_op(roots[a].p, roots[a].bytes, (int)k.num("kind")); else err = reasm_op((uint64_t)x); }
+                        if (err == "skip") skipped = true;
+                        else { st.inc("probe.holder_op." + op);
+                            if (!err.empty()) result = Verdict::bad("own:holder-" + op + "-state", err, idx);
+                            else if (ledger::live != before) result = Verdict::bad("own:holder-" + op + "-leak", fmt("%lld allocations made by the operation are still live after every object it created was destroyed", (long long)(ledger::live - before)), idx); if (result.viol) ledger::live = before; }
+                    }
+                }
                 else skipped = true;
                 ledger::fail_countdown = 0;
             }
